@@ -242,6 +242,13 @@ __CPROVER_ensures(config->key == NULL || config->key == __CPROVER_old(config->ke
 #define GEN_IDX_NBF(B) (((B)->c.claims & JWT_CLAIM_IAT) ? 1 : 0)
 #define GEN_IDX_EXP(B) ((((B)->c.claims & JWT_CLAIM_IAT) ? 1 : 0) + (((B)->c.claims & JWT_CLAIM_NBF) ? 1 : 0))
 
+/* the (key, alg) pair the call ends up with: the callback keeps or drops the builder's key and picks any alg; a key without
+ * an explicit alg is pinned to its own */
+#define GEN_HASKEY(B) (GEN_WITHCB(B) ? g_cb_key != NULL : (B)->c.key != NULL)
+#define GEN_A0(B) (GEN_WITHCB(B) ? g_cb_alg : (B)->c.alg)
+#define GEN_EFF_ALG(B) ((GEN_A0(B) == JWT_ALG_NONE && GEN_HASKEY(B)) ? (B)->c.key->alg : GEN_A0(B))
+#define GEN_ADMISSIBLE(B) ((!GEN_HASKEY(B) || (B)->c.key->is_private_key) && \
+	SPEC_SETKEY_OK(GEN_EFF_ALG(B), GEN_HASKEY(B), GEN_HASKEY(B) ? (B)->c.key->alg : JWT_ALG_NONE))
 #define DECL_jwt_builder_generate(NAME, CLAUSES) \
 char *NAME(jwt_builder_t *__cmd) \
 __CPROVER_requires(__cmd == NULL || __CPROVER_is_fresh(__cmd, sizeof(*__cmd))) \
@@ -299,7 +306,11 @@ __CPROVER_ensures((__cmd != NULL && __CPROVER_return_value != NULL) ==> (g_hs_ca
 __CPROVER_ensures((__cmd != NULL && g_cb_called && g_cb_ret != 0) ==> __CPROVER_return_value == NULL) \
 /* the result is the one jwt_encode_str produced for THIS call, whatever error state the builder had */ \
 __CPROVER_ensures((__cmd != NULL && g_enc_calls == 1) ==> (__CPROVER_return_value == g_enc_ret && \
-	(__cmd->error != 0) == (g_enc_ret == NULL)))
+	(__cmd->error != 0) == (g_enc_ret == NULL))) \
+/* ... and a refusal has its cause in THIS call (a failing callback, an inadmissible key/alg, a failed header set-up or \
+ * encoding, an allocation failure) -- never in the error state an earlier call left behind */ \
+__CPROVER_ensures((__cmd != NULL && __CPROVER_return_value == NULL && !g_oom) ==> ((g_cb_called && g_cb_ret != 0) || !GEN_ADMISSIBLE(__cmd) || \
+	(g_hs_calls == 1 && g_hs_ret != 0) || (g_enc_calls == 1 && g_enc_ret == NULL)))
 /* C17: a token is returned only if every step succeeded (no silently dropped iat/nbf/exp) */
 #define C17_GEN_CLAUSES \
 __CPROVER_ensures((__cmd != NULL && __CPROVER_return_value != NULL) ==> ( \
